@@ -17,7 +17,10 @@ def Token (s : Str) : Prop := ',' ∉ s ∧ '\n' ∉ s ∧ '\x00' ∉ s
 theorem C19_gantt_line (t : GTask) (hn : OneLine t.name) (hz : '\x00' ∉ t.name)
     (hid : Token t.idText ∧ (∀ c ∈ t.idText, c ≠ ' ')) (hs : Token t.start) (he : Token t.end_) :
     readGanttLine (ganttLine t).dropLast = some (expectedGantt t) := by
-  sorry
+  -- `hn`, `hz`, `he` are not needed for a single line (they matter for the whole source)
+  have _ := hn; have _ := hz; have _ := he
+  rw [ganttLine_dropLast]
+  exact readGanttLine_body t hid.1.1 hs.1
 
 /-- the Gantt source has exactly one task line per task (no sections: in WBS order), each reading back as that task -/
 theorem C19_gantt (title : Option Str) (weekends : Bool) (tick : Option Str) (tasks : List GTask)
@@ -26,7 +29,10 @@ theorem C19_gantt (title : Option Str) (weekends : Bool) (tick : Option Str) (ta
     (hn : ∀ t ∈ tasks, OneLine t.name ∧ '\x00' ∉ t.name)
     (hid : ∀ t ∈ tasks, Token t.idText ∧ (∀ c ∈ t.idText, c ≠ ' ') ∧ Token t.start ∧ Token t.end_) :
     (readGantt (ganttSrc title weekends tick tasks)).map (·.2) = tasks.map expectedGantt := by
-  sorry
+  refine readGantt_noSections title weekends tick tasks hsec ht hk ?_
+  intro t h
+  obtain ⟨hi, _, hs, he⟩ := hid t h
+  exact ⟨(hn t h).1, hi.1, hi.2.1, hs.1, hs.2.1, he.2.1⟩
 
 /-- with sections every task still has exactly one line: the entries read are a permutation of the tasks' entries,
     grouped by section in order of first appearance -/
@@ -35,7 +41,10 @@ theorem C19_gantt_sections (title : Option Str) (weekends : Bool) (tick : Option
     (hn : ∀ t ∈ tasks, OneLine t.name ∧ '\x00' ∉ t.name ∧ OneLine (sectionOf t))
     (hid : ∀ t ∈ tasks, Token t.idText ∧ (∀ c ∈ t.idText, c ≠ ' ') ∧ Token t.start ∧ Token t.end_) :
     ((readGantt (ganttSrc title weekends tick tasks)).map (·.2)).Perm (tasks.map expectedGantt) := by
-  sorry
+  refine readGantt_perm title weekends tick tasks ht hk ?_ (fun t h => (hn t h).2.2)
+  intro t h
+  obtain ⟨hi, _, hs, he⟩ := hid t h
+  exact ⟨(hn t h).1, hi.1, hi.2.1, hs.1, hs.2.1, he.2.1⟩
 
 /-- PARTIAL: the network source has exactly one edge per dependency and one Start edge per task without predecessors
     when no task name contains a brace or a line break (finding KF-R1: a name containing `}} --> 7{{x` adds an edge) -/
@@ -44,25 +53,48 @@ theorem C19_network_partial (all : Nat → NTask) (tasks : List Nat)
     (hid : ∀ i, (∀ c ∈ (all i).idText, c.isDigit ∨ c = '-') ∧ (all i).idText ≠ [])
     (hst : ∀ i ∈ tasks, (all i).style = none) :
     readNetwork (networkSrc all tasks) = expectedEdges all tasks := by
-  sorry
+  exact readNetwork_ok all tasks hn hid hst
 
 /-- the full statement fails: a task name can add an edge -/
 theorem C19_network_full_fails :
     let all : Nat → NTask := fun i => if i = 0 then { idText := lit "1", name := lit "a}} --> 7{{x", preds := [], style := none }
                                        else { idText := lit "2", name := lit "b", preds := [0], style := none }
     readNetwork (networkSrc all [0, 1]) ≠ expectedEdges all [0, 1] := by
-  sorry
+  decide +kernel
 
 /-- DHTMLX data: progress lies within 0..1 -/
 theorem C19_progress (t : DTask) (hs : ∀ s, t.spent = some s → 0 ≤ s) : 0 ≤ progressOf t ∧ progressOf t ≤ 1 := by
-  sorry
+  unfold progressOf
+  split
+  · constructor <;> grind
+  · split
+    · cases h : t.spent with
+      | none => constructor <;> grind
+      | some s =>
+        have := hs s h
+        rename_i h1 h2
+        simp only
+        split
+        · rw [Rat.div_def, Rat.zero_mul]; constructor <;> grind
+        · rename_i h3
+          have := rat_div_unit (t.estimate - s) t.estimate (by grind) (by grind) h2
+          constructor <;> grind
+    · constructor <;> grind
 
 /-- DHTMLX links are numbered 1..k without repetition, one per dependency in walk order -/
 theorem C19_links (ts : Nat → DTask) (n : Nat) (roots : List Nat) :
     (dhtmlxLinks ts n roots).map (·.id) = (List.range (dhtmlxLinks ts n roots).length).map (· + 1) ∧
     (dhtmlxLinks ts n roots).map (fun l => (l.source, l.target)) =
       (dhtmlxOrder ts n roots).flatMap (fun i => (ts i).preds.map (fun p => ((ts p).id, (ts i).id))) := by
-  sorry
+  unfold dhtmlxLinks
+  generalize (dhtmlxOrder ts n roots).flatMap (fun i => (ts i).preds.map (fun p => ((ts p).id, (ts i).id))) = pairs
+  constructor
+  · simp [Function.comp_def]
+  · apply List.ext_getElem
+    · simp
+    · intro i h1 h2
+      simp at h1 h2 ⊢
+      simp [h2]
 
 /-- DHTMLX data has exactly one entry per task walked, carrying its id, name, dates, parent id or 0 -/
 theorem C19_data (ts : Nat → DTask) (n : Nat) (roots : List Nat) :
@@ -72,6 +104,12 @@ theorem C19_data (ts : Nat → DTask) (n : Nat) (roots : List Nat) :
       let e := (dhtmlxData ts n roots).getD k default
       e.id = t.id ∧ e.text = t.name ∧ e.start = t.start ∧ e.end_ = t.end_ ∧ e.milestone = t.milestone ∧
       e.parent = (match t.parent with | some p => (ts p).id | none => 0) := by
-  sorry
+  unfold dhtmlxData
+  generalize dhtmlxOrder ts n roots = o
+  constructor
+  · simp
+  · intro k hk
+    simp [List.getD_eq_getElem?_getD, hk]
+    cases (ts o[k]).parent <;> rfl
 
 end Pj.Render
